@@ -5,6 +5,7 @@ step count (it terminates), errors are latched and never swallowed, the run ends
 step, and a run without error reports exactly the configured number of steps.
 -/
 import SpiceEv.Proofs.ScenarioRun
+import SpiceEv.Properties.C11
 set_option linter.unusedSectionVars false
 namespace SpiceEv
 variable {α : Type} [Field α] [LinearOrder α] [IsStrictOrderedRing α]
@@ -82,5 +83,27 @@ example :
     (run (1/100000 : ℚ) [] 3 [o1, o2, o1]).stepI = 2 ∧
     (run (1/100000 : ℚ) [] 3 [o1, o2, o1]).aborted = true := by
   decide +kernel
+
+/-! ### Inner loops: iteration bounds
+
+The strategies' own loops are not modelled as a whole, but their three loop *patterns* are, and
+each has a termination theorem elsewhere in this library; they are re-stated here so that the
+property's first sentence ("every strategy step finishes in bounded time") has its proved part
+in one place:
+
+* `C17_bisect_bound` — every `while max − min > EPS` bisection ends within `⌈log₂((hi−lo)/ε)⌉`
+  iterations (the variants `while not safe or …` are NOT covered: two of them looped forever on the
+  pinned code, findings H1/H2, found by the watchdog);
+* the battery's section loop ends within its fuel (`C01_load_ok` / `C01_unload_ok`, Properties/C01);
+* the end-of-core-standing-time scan ends iff some minute of the week is outside
+  (`C15_end_of_window`, `C15_end_of_window_never`, Properties/C15);
+* the run loop itself is a structural recursion over the step count (`C17_run_shape`).
+-/
+
+/-- iteration bound of the bisection pattern (re-export of `C11_bisect_terminates`) -/
+theorem C17_bisect_bound (ok : α → Bool) (eps : α) (heps : 0 < eps) (fuel : Nat) (lo hi : α)
+    (last : Option α) (hw : hi - lo ≤ eps * 2 ^ fuel) :
+    bisect ok eps fuel lo hi last ≠ none :=
+  C11_bisect_terminates ok eps heps fuel lo hi last hw
 
 end SpiceEv
